@@ -15,7 +15,7 @@ for p in props:
             "quick_cmd": "./check.sh %s quick" % p['id'],
             "thorough_cmd": "./check.sh %s thorough" % p['id'],
             "evidence_file": "/verif/evidence/%s.json" % p['id'],
-            "replay_cmd_template": "cat {path}; ./check.sh %s quick" % p['id'],
+            "replay_cmd_template": "./check.sh replay {path}",
             "engine": "kvcheck",
             "level_claimed": {"category": "other", "text": c['level_text'], "design_ref": "DESIGN.md section 3, " + p['id']},
             "level_note": c['level_note'],
